@@ -716,7 +716,7 @@ pub fn main(args: &Args) {
             ("ansi", "all", "SELECT a , b  from  t WHERE c = :p1\n", Some(("colon", vec![("p1", "1")]))),
             ("ansi", "LT01,CP01", "select  a from t where x = :a_rather_long_parameter_name_1  and y =  :p2\n", Some(("colon", vec![("a_rather_long_parameter_name_1", "1"), ("p2", "'abcdefgh'")]))),
             ("ansi", "all", "SELECT a  from  t WHERE c = ?  and d = ?\n", Some(("question_mark", vec![("1", "10"), ("2", "'x'")]))),
-            // fixed 9542ee4: AL02 inserts "AS " at the start of the alias node, LT02 an indent before it:
+            // fixed e89ae00: AL02 inserts "AS " at the start of the alias node, LT02 an indent before it:
             // two insertions at one source position, the second was lost
             ("ansi", "all", "SELECT :a\n\n\n:b;\n", Some(("colon", vec![("a", "1"), ("b", "bar")]))),
         ] {
